@@ -10,6 +10,7 @@ REPO = os.environ.get("VERIF_REPO", "/repo")
 # binaries built from a scratch copy of the tree (bin/mutest, bin/run_seeds) are cached inside that copy, so that parallel runs
 # on different trees never remove each other's binaries
 CACHE = os.path.join(VERIF, ".cache") if os.path.realpath(REPO) == "/repo" else os.path.join(REPO, ".vcache")
+MAX_CHUNK_LINES = 40000     # one TLC process never gets more than this many events of a stateless trace
 SPEC = os.path.join(VERIF, "spec")
 SPEC_DIRS = [os.path.join(SPEC, d) for d in ("base", "glm", "machine", "mc", "trace", "proofs")]
 TLA_JARS = "/opt/veriftools/tla/tla2tools.jar:/opt/veriftools/tla/CommunityModules-deps.jar"
@@ -172,6 +173,7 @@ def split_trace(path, nchunks, outdir, group_marker=None, min_lines=2000):
     if gm is None:
         # stateless trace: deal lines round-robin so that expensive regions are spread over all chunks
         k = max(1, min(nchunks, (n + min_lines - 1) // min_lines))
+        k = max(k, (n + MAX_CHUNK_LINES - 1) // MAX_CHUNK_LINES)       # long traces: more chunks than processes, run in waves
         chunks = [(-1, lines[i::k]) for i in range(k)]
         res = []
         for i, (st, c) in enumerate(chunks):
@@ -199,6 +201,7 @@ def split_trace(path, nchunks, outdir, group_marker=None, min_lines=2000):
 
 class Validation:
     def __init__(self):
+        self.resource_failures = 0
         self.events = 0          # lines consumed by the trace spec
         self.skipped = 0
         self.chunks = 0
@@ -250,6 +253,8 @@ def validate_trace(trace_module, trace_path, scratch, cfg=None, group_marker=Non
                 v.known_samples.setdefault(kid, lines[li].strip() if li < len(lines) else "")
         if not summ or not r.ok:
             v.failures.append((p, r.tail(30)))
+            if r.rc in (124, 137, 143, -9, -15) or "OutOfMemoryError" in r.out:
+                v.resource_failures += 1          # ran out of time / memory or was killed: not a judgement about the trace
         else:
             m = re.match(r'<<"SUMMARY", (\d+), (\d+), (\d+), (\d+)', summ[-1])
             if m:
